@@ -60,6 +60,10 @@ GUARDS = [
     ("resumeSetsBoth", "daemon.c", "MHD_resume_connection", r"connection->resuming\s*=\s*true;\s*daemon->resuming\s*=\s*true;"),
     ("resumeMarksReady", "daemon.c", "resume_suspended_connections",
      r"MHD_EPOLL_STATE_IN_EREADY_EDLL\s*\\?\s*\|\s*MHD_EPOLL_STATE_READ_READY\s*\|\s*MHD_EPOLL_STATE_WRITE_READY"),
+    ("resumeRestartsTimerNormal", "daemon.c", "resume_suspended_connections",
+     r"if\s*\(0\s*!=\s*pos->connection_timeout_ms\)\s*pos->last_activity\s*=\s*MHD_monotonic_msec_counter\s*\(\);"),
+    ("resumeRestartsTimerManual", "daemon.c", "resume_suspended_connections",
+     r"if\s*\(0\s*!=\s*pos->connection_timeout_ms\)\s*pos->last_activity\s*=\s*MHD_monotonic_msec_counter\s*\(\);\s*if\s*\(pos->connection_timeout_ms\s*==\s*daemon->connection_timeout_ms\)"),
     ("selectReadsPrevAfterCall", "daemon.c", "internal_run_from_select", r"for\s*\(pos\s*=\s*daemon->connections_tail;\s*NULL\s*!=\s*pos;\s*pos\s*=\s*pos->prev\)"),
 ]
 
@@ -134,6 +138,19 @@ def probe_script_epoll():
            ["wb 0", "probe idle 0", "wb 0", "resume 0"] + ["round"] * 8 + ["stop"]
 
 
+def probe_script_timer(override):
+    """a connection suspended (mid-upload) for longer than its timeout on the virtual clock, then resumed: the white-box
+    view after the resuming round shows whether the inactivity timer was restarted.  override None = daemon default
+    (default-timeout list), else the connection's own timeout in seconds (manual-timeout list)"""
+    req = b"POST /u HTTP/1.1\r\nHost: x\r\nContent-Length: 9\r\n\r\nabc"
+    L = ["case timer", "cfg mode=select suspend=1 timeout=5", "resp 1 kind=cb-unknown size=10 cbmax=4",
+         "beh 0 0 fs=- u=all us=0:n ls=- rs=- rd=0 l=r1"]
+    if override is not None:
+        L.append("cto 0 %d" % override)
+    return L + ["start", "arrive 0 1", "send 0 " + hx(req), "round", "round", "tick-if-susp 0 7000", "round", "wb 0", "resume 0",
+                "round", "wb 0", "round", "stop"]
+
+
 def probe_guards():
     """behavioural determination of the guards (semantic route): the real code is asked"""
     h = vlib.build_daemon_harness(name="h_susp", src="harness/h_susp.c", ldextra=["-ldl"])
@@ -182,6 +199,14 @@ def probe_guards():
         e = next(i for i, l in enumerate(lg) if i > k and l == "round-end")
         b = max(i for i, l in enumerate(lg) if i < k and l == "round-begin")
         g["selectReadsPrevAfterCall"] = not any(l.startswith("handler c=1") for l in lg[b:e])
+    for name, ov in (("resumeRestartsTimerNormal", None), ("resumeRestartsTimerManual", 2)):
+        out, rc, err = vlib.run_lines(h, probe_script_timer(ov), timeout=120)
+        wbs = [dict(KV.findall(l)) for l in out if l.startswith("wb ")]
+        ticked = any(l.startswith("ticked ") for l in out)
+        if ticked and wbs and wbs[0].get("suspended") == "1" and wbs[0].get("age") == "7000":
+            # second `wb` missing = the connection was closed by the round that resumed it
+            g[name] = len(wbs) >= 2 and wbs[1].get("suspended") == "0" and wbs[1].get("age") == "0" and \
+                not any(l.startswith("completed ") and "code=2" in l for l in out)     # 2 = MHD_REQUEST_TERMINATED_TIMEOUT_REACHED
     out, rc, err = vlib.run_lines(h, probe_script_epoll(), timeout=120)
     wbs = [dict(KV.findall(l)) for l in out if l.startswith("wb ")]
     if len(wbs) >= 2 and wbs[0]["suspended"] == "1" and int(wbs[0]["eli"]) & 4:
@@ -306,13 +331,17 @@ class ConnSpec:
 
 
 class Case:
-    def __init__(self, name, mode, conns, resps, extra_resume=(), rounds=None):
+    def __init__(self, name, mode, conns, resps, extra_resume=(), rounds=None, tcfg=None, late=False):
         self.name, self.mode, self.conns, self.resps = name, mode, conns, resps
+        # tcfg = (daemon default timeout s, per-connection timeout s of connection 0 or None, ms the virtual clock advances
+        # while connection 0 is suspended); late: the last piece of the request is sent only after the first resume
+        self.tcfg, self.late = tcfg, late
         self.extra_resume = list(extra_resume)     # [(after_step_round_index, conn)] explicit `resume` ops
         self.rounds = rounds
 
     def erased(self):
-        return Case(self.name + "~base", self.mode, [c.erased() for c in self.conns], self.resps, rounds=self.total_rounds())
+        return Case(self.name + "~base", self.mode, [c.erased() for c in self.conns], self.resps, rounds=self.total_rounds(),
+                    tcfg=self.tcfg, late=self.late)
 
     def total_rounds(self):
         if self.rounds is not None:
@@ -329,7 +358,7 @@ class Case:
         return n
 
     def lines(self):
-        L = ["case " + self.name, "cfg mode=%s suspend=1" % self.mode]
+        L = ["case " + self.name, "cfg mode=%s suspend=1" % self.mode + (" timeout=%d" % self.tcfg[0] if self.tcfg else "")]
         for rid, (kind, size, cbmax) in sorted(self.resps.items()):
             L.append("resp %d kind=%s size=%d cbmax=%d" % (rid, kind, size, cbmax))
         for i, c in enumerate(self.conns):
@@ -340,12 +369,26 @@ class Case:
                 body = {"cl": "cl:%d" % len(q.body()), "ch": "ch", "get": "none"}[q.shape]
                 L.append("req %d %d head=%d body=%s" % (i, r, len(q.head()), body))
                 L.append("beh %d %d %s" % (i, r, q.plan.beh()))
+        if self.tcfg and self.tcfg[1] is not None:
+            L.append("cto 0 %d" % self.tcfg[1])
         L.append("start")      # the application's scripts are fixed before the daemon starts
         for i, c in enumerate(self.conns):
             L.append("arrive %d %d" % (i, i + 1))
         pcs = [c.pieces() for c in self.conns]
         used = 0
         total = self.total_rounds()
+        if self.tcfg:
+            # timer family: the clock runs only while connection 0 is suspended (far beyond every timeout in play);
+            # the explicit resume follows two rounds later; several cycles, so that every suspend point is served
+            cyc = ["tick-if-susp 0 %d" % self.tcfg[2], "round", "round", "resume 0", "round", "round"]
+            held = pcs[0][-1] if (self.late and len(pcs[0]) > 1) else None
+            for piece in (pcs[0][:-1] if held is not None else pcs[0]):
+                L += ["send 0 %s" % hx(piece), "round", "round"]
+            L += cyc * 2
+            if held is not None:
+                L += ["send 0 %s" % hx(held), "round", "round"]
+            L += cyc * 3 + ["round"] * 6 + ["stop"]
+            return L
         for step in range(max(len(p) for p in pcs)):
             for i, p in enumerate(pcs):
                 if step < len(p):
@@ -433,6 +476,17 @@ def gen_cases(ctx, tier, boost=False):
                         ConnSpec("cl", "one", plan_for(rng.choice(allp), rng.choice(delays), ("all",), rid=1), chunks=(b"QR", b"S", b"TU"))
                     cases.append(Case("q%d" % k, mode, [ConnSpec(shape, seg, plan_for(combo, dl, takes), second=second)], RESPS))
                     k += 1
+    # timer family: suspended longer than the inactivity timeout (virtual clock), daemon default timeout x the connection's own
+    # timeout (none = default-timeout list, != default = manual-timeout list, == default, 0 = never), every single suspend point
+    TCFG = [(5, None), (5, 2), (0, 2), (5, 5), (5, 0)]
+    for combo in [cb for cb in allp if len(cb) == 1 or cb in (("F0", "F1"), ("L0", "L1"))]:
+        for (shape, seg, takes) in SHAPES:
+            for (dflt, own) in TCFG:
+                for mode in modes:
+                    for late in ((False, True) if seg == "pieces" else (False,)):
+                        cases.append(Case("t%d" % k, mode, [ConnSpec(shape, seg, plan_for(combo, "n", takes, rid=1 + k % 2))], RESPS,
+                                          tcfg=(dflt, own, 7000), late=late))
+                        k += 1
     # race orders, explicit resume, mixed actions, take-nothing-and-suspend, reader that returns data, known-size replies
     nrand = (3000 if tier == "thorough" else 500) * (3 if boost else 1)
     acts = ["i", "d0", "d1", "d2", "d3", "p", "t"]
@@ -707,6 +761,14 @@ def judge(case, hlines, blines):
     errs = []
     for i, c in enumerate(case.conns):
         v, b = hv[i], bv[i]
+        if case.tcfg:
+            # the clock advanced only while the connection was suspended: it has never been idle since a resume, so any
+            # termination for inactivity (code 2 = MHD_REQUEST_TERMINATED_TIMEOUT_REACHED) closes it too early
+            for r, q in sorted(v.reqs.items()):
+                if q.completed == 2:
+                    errs.append(("timer", "conn %d request %d closed for inactivity (TIMEOUT_REACHED) although the clock only advanced while it "
+                                          "was suspended (daemon timeout %ss, connection timeout %s)" %
+                                 (i, r, case.tcfg[0], "default" if case.tcfg[1] is None else "%ss" % case.tcfg[1])))
         for e in v.violations:
             errs.append(("quiet", "conn %d: %s" % (i, e)))
         for e in b.violations:
@@ -760,7 +822,9 @@ class Spec:
                          "Mhd.C11.upload_lossless", "Mhd.C11.reply_lossless", "Mhd.C11.upload_complete",
                          "Mhd.C11.stutter_equivalence", "Mhd.C11.pipeline_order", "Mhd.C11.epoll_no_lost_wakeup",
                          "Mhd.C11.eready_traversal_visits", "Mhd.C11.no_block_while_pending",
-                         "Mhd.C11.resume_inside_traversal_partial",
+                         "Mhd.C11.resume_inside_traversal_partial", "Mhd.C11.timer_guards_present",
+                         "Mhd.C11.resume_restarts_timer_all_lists", "Mhd.C11.no_timeout_while_suspended",
+                         "Mhd.C11.no_early_timeout_after_resume", "Mhd.C11.manual_restart_witness",
                          "Mhd.C11.instant_retry_witness", "Mhd.C11.reader_data_witness"]
     trusted_base = ["Lean 4 kernel", "axioms: propext, Classical.choice, Quot.sound at most (audited per theorem)",
                     "hand-written model lean/Mhd/Model/Susp*.lean tied to daemon.c / connection.c by this run's correspondence",
@@ -832,6 +896,12 @@ class Spec:
                 stats["suspends"] += v.nsusp
                 stats["cancelled_suspends"] += v.ncancel
             stats["mode_" + c.mode] = stats.get("mode_" + c.mode, 0) + 1
+            if c.tcfg:
+                stats["timer_cases"] = stats.get("timer_cases", 0) + 1
+                if any(l.startswith("ticked ") for l in hl):
+                    stats["timer_cases_clock_ran_while_suspended"] = stats.get("timer_cases_clock_ran_while_suspended", 0) + 1
+                    lst = "never" if c.tcfg[1] == 0 else ("manual_list" if (c.tcfg[1] is not None and c.tcfg[1] != c.tcfg[0]) else "default_list")
+                    stats["timer_ticked_" + lst] = stats.get("timer_ticked_" + lst, 0) + 1
             for cl in c.conns:
                 stats["shape_%s_%s" % (cl.shape, cl.seg)] = stats.get("shape_%s_%s" % (cl.shape, cl.seg), 0) + 1
                 for a in [a for q in cl.chain() for a in q.plan.acts()]:
@@ -900,7 +970,7 @@ class Spec:
                     if pipelined and i == 0:
                         stats["pipelined_strict_equal_" + c.mode] = stats.get("pipelined_strict_equal_" + c.mode, 0) + 1
             else:
-                if not racy and c.mode == "select":
+                if not racy and c.mode == "select" and not c.tcfg:
                     # MHD_get_timeout after every round (0 = do not block: pending data, pending resume, non-empty eready list)
                     hh, mh = [l for l in hl if l.startswith("hint ")], [l for l in ml if l.startswith("hint ")]
                     if hh[:len(mh)] != mh:
@@ -955,6 +1025,9 @@ class Spec:
                "pipelines": "a second (random part: also a third) request pipelined behind the first one: its bytes arrive with the last piece of the "
                             "first and sit in the read buffer while the first is suspended; suspend points in every request; model and code "
                             "compared on the exact callback sequence of the whole connection (counts: pipelined_*)",
+               "timer": "virtual clock advanced by 7 s only while the connection is suspended x daemon timeout {0, 5 s} x own timeout {none, 2 s, "
+                        "= default, 0} x every single suspend point (+ F0F1, L0L1) x 4 shapes x select/epoll x {all data before, last piece after the "
+                        "resume}; oracle: never TIMEOUT_REACHED, projection = run without suspends (counts: timer_*)",
                "timeout_hint": "select mode: MHD_get_timeout64 after every round (0 / none) equals Daemon.hintZero of the model (hint_*)",
                "strength": {"callback order per connection (select/epoll external)": "bounded-exhaustive over placements + random; exact diff",
                             "canonical projection (all modes)": "every case, against the run without suspends and against the model",
